@@ -55,6 +55,31 @@ Check (C06_channel_invariant : forall F, valid_file F -> forall ops c,
   dropN (cr_consumed r) (nth c (d_buf (cr_dec r)) []) ++ cdata c (d_rest (cr_dec r)) =
     dropN (cpos r) (chan_pcm F c)).
 
+Check (C07_ser_twos_complement : forall e bps xs,
+  1 <= bps <= 32 -> Forall (fits (Z.of_N bps)) xs ->
+  ser e (bytes_per_sample bps) xs = concat (map (twos_complement e (bytes_per_sample bps)) xs)).
+Check (C07_channels_deinterleaved : forall F c, valid_file F -> (c < N.to_nat (f_channels F))%nat ->
+  lenN (chan_pcm F c) = total_frames F /\ lenN (pcm F) = total_frames F * f_channels F /\
+  forall i, (i < N.to_nat (total_frames F))%nat ->
+    nth_error (chan_pcm F c) i = nth_error (pcm F) (i * N.to_nat (f_channels F) + c)).
+Check (C06_sample_seek_beyond_end : forall F, valid_file F -> forall ops,
+  Forall sop_ok (snd (sample_run F ops)) -> f_seekable F = true ->
+  forall pre r s o post, snd (sample_run F ops) = pre ++ (r, SSeek s, o) :: post ->
+    total_frames F < s ->
+    (exists e, o = OErr e) /\
+    (seek_free (map (abs_s F) post) ->
+       delivered (pcm F) (map (abs_s F) post) = [] /\
+       Forall (fun x => polls x = true -> eos x = true) (map (abs_s F) post))).
+Check (C06_channel_seek_beyond_end : forall F, valid_file F -> forall ops c,
+  (c < N.to_nat (f_channels F))%nat ->
+  Forall cop_ok (snd (chan_run F ops)) -> f_seekable F = true ->
+  forall pre r s o post, snd (chan_run F ops) = pre ++ (r, CSeek s, o) :: post ->
+    total_frames F < s ->
+    (exists e, o = OErr e) /\
+    (seek_free (map (abs_c F c) post) ->
+       delivered (chan_pcm F c) (map (abs_c F c) post) = [] /\
+       Forall (fun x => polls x = true -> eos x = true) (map (abs_c F c) post))).
+
 (* the contract and the history-level notions the statements rest on, pinned too *)
 Check (eq_refl : @exactly_once = fun A (data : list A) (atr : list (entry A)) =>
   forall pre e post, atr = pre ++ e :: post ->
